@@ -377,5 +377,29 @@ Theorem C15_wiring_Strand_share_sum :
 Proof. exact Proofs.GenAgreeWiring_C15.gen_wiring_Strand_share_sum. Qed.
 Print Assumptions C15_wiring_Strand_share_sum.
 
+Theorem C15_wiring_SecondOrderMeasures_column_share_sum :
+  wsrc_SecondOrderMeasures_column_share_sum = Some (WCall (WGlobal "_ColumnShareSum") [WSelf
+      "_dimensions"; WVar "self"; WSelf "_cube_measures"] []).
+Proof. exact Proofs.GenAgreeWiring_C15.gen_wiring_SecondOrderMeasures_column_share_sum. Qed.
+Print Assumptions C15_wiring_SecondOrderMeasures_column_share_sum.
+
+Theorem C15_wiring_SecondOrderMeasures_row_share_sum :
+  wsrc_SecondOrderMeasures_row_share_sum = Some (WCall (WGlobal "_RowShareSum") [WSelf "_dimensions";
+      WVar "self"; WSelf "_cube_measures"] []).
+Proof. exact Proofs.GenAgreeWiring_C15.gen_wiring_SecondOrderMeasures_row_share_sum. Qed.
+Print Assumptions C15_wiring_SecondOrderMeasures_row_share_sum.
+
+Theorem C15_wiring_SecondOrderMeasures_total_share_sum :
+  wsrc_SecondOrderMeasures_total_share_sum = Some (WCall (WGlobal "_TotalShareSum") [WSelf
+      "_dimensions"; WVar "self"; WSelf "_cube_measures"] []).
+Proof. exact Proofs.GenAgreeWiring_C15.gen_wiring_SecondOrderMeasures_total_share_sum. Qed.
+Print Assumptions C15_wiring_SecondOrderMeasures_total_share_sum.
+
+Theorem C15_wiring_StripeMeasures_share_sum :
+  wsrc_StripeMeasures_share_sum = Some (WCall (WGlobal "_ShareSum") [WSelf "_rows_dimension"; WVar
+      "self"; WSelf "_cube_measures"] []).
+Proof. exact Proofs.GenAgreeWiring_C15.gen_wiring_StripeMeasures_share_sum. Qed.
+Print Assumptions C15_wiring_StripeMeasures_share_sum.
+
 End Wiring_C15.
 (* ---- WIRING-APPENDIX:END ---- *)
